@@ -44,7 +44,7 @@ CHECKS = {
             "5 C04"),
     "C05": ("exploration",
             "deterministic simulation of 2..10 network nodes as seeded-scheduled tasks (per-node MCU timing jitter, speed classes, clock skew, stalls) on a shared simulated air; history oracle at quiescence; separate lossy configuration",
-            "Every node is a real RF24Network/RoutingOnly object on its own chip model and simulated MCU task; a seeded scheduler decides all interleavings; messages are sent one at a time and the application logs of all nodes are compared with the sent message at quiescence (delivered once, intact, nobody else, fragmented on air). 15 % of runs inject packet/ACK loss and enforce only the safety clauses. Known finding KF-C05-frag-routed is matched narrowly.",
+            "Every node is a real RF24Network/RoutingOnly object on its own chip model and simulated MCU task; a seeded scheduler decides all interleavings; messages are sent one at a time and the application logs of all nodes are compared with the sent message at quiescence (delivered once, intact, nobody else, fragmented on air). 15 % of runs inject packet/ACK loss and enforce only the safety clauses. The former known finding (fragmented messages over routed paths, D4) is repaired; its replay is re-run as a regression guard.",
             "Trusts chip/air model (M1-M4, M7-M10) and the timing envelope in evidence.assumptions; sampling, not proof.",
             "5 C05"),
     "C06": ("fault_enumeration",
